@@ -29,9 +29,15 @@ Section Full.
   Definition C11_full : Prop := cache_faithful /\ formats_agree /\ serialization_deterministic.
 End Full.
 
-(* What is PROVED (Properties.v): the binary layer decode (encode v) = v for the primitive codec (all Z, all
-   byte strings) and for every schema the translator extracts from the current source, for all values, given
-   the same for the nested irregular classes (Instance, SymbolTable, SymbolTableNode) and the external
-   codecs (JSON value, literal value); these and the whole-tree statement C11_full (including fixup, the JSON
-   format and determinism) are SEARCHED on the implementation by the structural round trip (harness stage S),
-   not proved: C11_full is therefore established only as `..._partial`. *)
+(* What is PROVED (Properties.v), for the BINARY format: dec_bin (enc_bin t) = Some t on the modelled data-file
+   layer for trees of any size and nesting (`data_file_roundtrip`, `type_roundtrip`, `object_roundtrip`,
+   `data_file_injective`): primitive codec for all Z / byte strings, every class schema regenerated from the
+   current source (ops AND field names), hand models of Instance / SymbolTable / SymbolTableNode / literal / JSON
+   value, recursion closed, no hypotheses.  `formats_agree` is proved as a TABLE theorem (same attribute set in
+   serialize() and write(), same JSON keys in serialize() and deserialize()).
+   Still only SEARCHED on the implementation (harness stage S), hence C11_full remains partial:
+     - abstraction of a live tree into field values (SymbolTable filtering / sorting, cross_ref choice) and fixup
+       (re-linking of names, MRO) -- `observe t' = observe t`;
+     - the JSON format's own decode . encode (json.dumps / deserialize classmethods);
+     - extract_symbol (C) cutting exactly one object;
+     - determinism of the live-tree -> bytes function (hash seed independence). *)
